@@ -7,7 +7,8 @@ PROP = "C10"
 TRUSTED = [
     "Coq 8.16.1 kernel (coqc), vm_compute for case evaluation; no native_compute",
     "hand-written model props/C10/coq/Model.v of bufio.Reader.ReadLine, esBulkDocReader.ReadDoc/skipActionLine/readDoc,"
-    " the ProcessDocuments loop, the docs payload, extractDocTime/parseESTime/documentDelayed/TimeToMID"
+    " the ProcessDocuments loop, the docs payload, extractDocTime/parseESTime/documentDelayed/TimeToMID, and ModelMeta.v of"
+    " MetaData.MarshalBinaryTo/UnmarshalBinary/marshalAppendMeta"
     " (tied to /repo by the correspondence run, not verified code)",
     "Go harness harness/cmd/hC10 (generators, recording StorageClient, payload decoder, oracle table)",
     "JSON grammar: NOT modelled. Class of a line (object / other value / invalid) = encoding/json where it says valid,"
@@ -24,7 +25,8 @@ RULE = ("generated request bodies, line-wise: action/document pairs with LF/CRLF
         "dangling action lines; documents of sizes B-4..B+3 and multiples of B, JSON objects of many shapes (escapes, unicode, nested), "
         "non-objects, broken JSON, decoder-lenient JSON; time fields timestamp/time/ts in ES / RFC3339 / RFC3339Nano at delays "
         "drift, -futureDrift +- {0,1ns,1us,1ms,1s}, far past/future incl. beyond time.Duration; 4 drift configurations; plain/gzip, whole/"
-        "chunked body reader; 10+ buffer sizes each in its own process. non-trivial = body with >= 2 lines exercising at least one "
+        "chunked body reader; 10+ buffer sizes each in its own process; random metas through the real MarshalBinaryTo/UnmarshalBinary "
+        "(plus truncated / header-corrupted / extended encodings) and the metas payload of accepted requests. non-trivial = body with >= 2 lines exercising at least one "
         "such feature; distinct by request")
 
 
